@@ -153,6 +153,7 @@ type scenario struct {
 	layout          string   // path of the signed layout to use ("" = the honest one)
 	keys            []string // layout key files ("" = the signers' public keys)
 	keySep          bool     // pass the keys as repeated -k instead of one comma separated value
+	keyArgv         []string // explicit key flags and values (keys then lists the key files they name, for the library)
 	rawKeyArg       *string  // the literal value of --layout-keys (keys then lists what a faithful reading of it names)
 	noInspect       bool     // also demand that nothing was verified: no inspection ran (no <inspection>.link in the cwd)
 	what            string   // detail for the case description
@@ -386,6 +387,7 @@ func (w *world) signerPrivs() []string {
 
 func (w *world) verifyAll(signed, final, links string) {
 	scs := w.scenarios(signed)
+	scs = append(scs, w.round10Scenarios()...)
 	// the expired layout is signed through the CLI as well
 	expired := w.buildLayout(time.Now().Add(-48 * time.Hour))
 	expiredPath := w.signLayout(expired, "expired", w.cfg.LayoutSigners)
@@ -515,7 +517,9 @@ func (w *world) verifyOne(i int, sc scenario, signed, final, links string) {
 	}
 	mkArgv := func(s sideT) []string {
 		argv := []string{"verify", "-l", s.layoutArg}
-		if sc.keySep {
+		if sc.keyArgv != nil {
+			argv = append(argv, sc.keyArgv...)
+		} else if sc.keySep {
 			for _, k := range keys {
 				argv = append(argv, "-k", k)
 			}
